@@ -356,7 +356,17 @@ func (e *c04Exec) subRun(z zoneCfg) (out []string, sdig string, infra string) {
 				}
 				oc := newOpCtx(op.FailN)
 				r.setRootOp(oc)
+				// The isolated execution is pinned to the instant the shared execution actually used.
+				// The statement asks for ONE instant per evaluation, not for the instant of entry: an
+				// implementation may read the clock anywhere between entry and return.
 				entry := got.Entry
+				if got.NowSet && !got.HasTime {
+					if got.CtxNow.Before(got.Entry) || got.CtxNow.After(got.Exit) {
+						e.violate("clock", "now-outside-evaluation", fmt.Sprintf("client %d op %d (%s %q): the evaluation used the instant %s, but the clock showed %s when Evaluate was entered and %s when it returned",
+							ci, oi, op.Kind, c.Programs[op.Prog].Src, got.CtxNow.Format(time.RFC3339Nano), got.Entry.Format(time.RFC3339Nano), got.Exit.Format(time.RFC3339Nano)))
+					}
+					entry = got.CtxNow
+				}
 				ref := execOp(op, oc, fresh, in2, &entry)
 				r.setRootOp(nil)
 				src := c.Programs[op.Prog].Src
@@ -434,6 +444,9 @@ func clockOracle(op *Op, src string, got *opResult) string {
 		return ""
 	}
 	want := got.Entry
+	if got.NowSet {
+		want = got.CtxNow // one instant per evaluation, read anywhere between entry and return (checked by the caller)
+	}
 	for _, o := range op.Opts {
 		if o.Kind == "time" {
 			want = time.UnixMilli(o.TimeMs).UTC()
